@@ -12,6 +12,9 @@ def check(ctx: Ctx) -> None:
     S.r_atomic_slot_registry(ctx, "R07.4")
     K.r_who_cancel(ctx, "R07.5")
     r_group_table_who(ctx, "R07.6")
+    S.r_spawner_registry_who(ctx, "R07.7")
+    from .elemtrack import r_spawner_kept
+    r_spawner_kept(ctx, "R07.8")
 
 
 def r_group_table_who(ctx: Ctx, rule: str) -> None:
